@@ -16,8 +16,8 @@ def g(fam, **kw):
     return ['%s:%s:%d' % (fam, name, n) for name, n in kw.items()]
 
 
-V1_QUICK = g('stream', v1good=150, v1corrupt=120, v1struct=120, v1mutate=200, v1trunc=10, v1len=25, v1max=30, v1adj=96, v1lenient=1, v1words=170, v1unicode=156, v1extra=340, v1junk=80, v1cr=60, bytes=40)
-V1_THOROUGH = g('stream', v1good=4000, v1corrupt=4000, v1struct=3000, v1mutate=8000, v1trunc=300, v1len=400, v1max=600, v1adj=6144, v1lenient=1, v1words=170, v1unicode=156, v1extra=340, v1junk=2500, v1cr=1500, bytes=1000)
+V1_QUICK = g('stream', v1good=150, v1corrupt=120, v1struct=120, v1mutate=200, v1trunc=10, v1len=25, v1max=75, v1adj=96, v1lenient=1, v1words=170, v1unicode=156, v1extra=340, v1junk=80, v1cr=60, bytes=40)
+V1_THOROUGH = g('stream', v1good=4000, v1corrupt=4000, v1struct=3000, v1mutate=8000, v1trunc=300, v1len=400, v1max=700, v1adj=6144, v1lenient=1, v1words=170, v1unicode=156, v1extra=340, v1junk=2500, v1cr=1500, bytes=1000)
 V2_QUICK = g('stream', v2good=120, v2corrupt=150, v2mutate=250, bparse=150, v2ctrl=700, v2len=330, v2sig=60, v2sigmulti=150, v2halves=75, mixed=80, bytes=40, huge=4)
 V2_THOROUGH = g('stream', v2good=3000, v2corrupt=4000, v2mutate=8000, bparse=4000, v2ctrl=65536, v2len=2500, v2sig=3060, v2sigmulti=800, v2halves=300, mixed=2000, bytes=1000, huge=60)
 IPTEXT_QUICK = g('iptext', iprand=400)
@@ -91,16 +91,16 @@ PROPS = {
              'non-trivial = a call into the crate on a non-empty input; distinct = distinct inputs',
     ),
     'C04': dict(
-        gens=dict(quick=g('stream', v1good=200, v1struct=60, v1len=40, v1max=20, v2good=150, v2len=40, mixed=80, bigtrail=6, huge=6, pipe=60),
-                  thorough=g('stream', v1good=5000, v1struct=2000, v1len=600, v1max=400, v2good=4000, v2len=2000, mixed=2500, bigtrail=60, huge=80, pipe=2000)),
+        gens=dict(quick=g('stream', v1good=200, v1struct=60, v1len=40, v1max=75, v2good=150, v2len=40, mixed=80, bigtrail=6, huge=6, pipe=60),
+                  thorough=g('stream', v1good=5000, v1struct=2000, v1len=600, v1max=700, v2good=4000, v2len=2000, mixed=2500, bigtrail=60, huge=80, pipe=2000)),
         models=[MC_V1, MC_V2, MC_MIXED, MC_PIPE],
         rule='stream sessions whose header is followed by trailers (application bytes, another header, CR/LF/NUL, a '
              'digit, a TLV); non-trivial = an event after the first accept in the session, or the re-parse of the '
              'reported header alone; distinct = distinct inputs',
     ),
     'C05': dict(
-        gens=dict(quick=g('stream', v1good=250, v1len=40, v1max=30, v1words=170, v2good=200, v2len=40, mixed=80) + g('tlv', tlvtrunc=80, tlvrand=40),
-                  thorough=g('stream', v1good=6000, v1len=600, v1max=600, v1words=170, v2good=5000, v2len=2000, mixed=2500) + g('tlv', tlvtrunc=3000, tlvrand=2000)),
+        gens=dict(quick=g('stream', v1good=250, v1len=40, v1max=75, v1words=170, v2good=200, v2len=40, mixed=80) + g('tlv', tlvtrunc=80, tlvrand=40),
+                  thorough=g('stream', v1good=6000, v1len=600, v1max=700, v1words=170, v2good=5000, v2len=2000, mixed=2500) + g('tlv', tlvtrunc=3000, tlvrand=2000)),
         models=[MC_V1, MC_V2, MC_MIXED],
         rule='stream sessions delivered mostly one byte per read, so every proper prefix is a state; non-trivial = the '
              'first accept of a session that visited at least one proper prefix of that header; distinct = distinct headers+splits',
@@ -112,7 +112,7 @@ PROPS = {
         rule='every stream event (the three verdicts on the same buffer); non-trivial = non-empty buffer',
     ),
     'C07': dict(
-        gens=dict(quick=g('builder', bwire=160, btypes=300), thorough=g('builder', bwire=6000, btypes=8448)),
+        gens=dict(quick=g('builder', bwire=160, btypes=300, blists=48), thorough=g('builder', bwire=6000, btypes=8448, blists=800)),
         models=[MC_BUILDER],
         rule='builder sessions with valid codes and TLV-only payloads, followed by a parse of what was built; '
              'non-trivial = a build or parse-back whose payload fits in 65535 bytes; distinct = distinct call sequences',
@@ -170,7 +170,7 @@ PROPS = {
         rule='every accepted v2 header in the stream traces, borrowed and owned views; distinct = distinct inputs',
     ),
     'C15': dict(
-        gens=dict(quick=g('stream', v1good=300, v1struct=60, v1adj=96, v1max=20, v1words=170, v1unicode=156), thorough=g('stream', v1good=8000, v1struct=2000, v1adj=6144, v1max=400, v1words=170, v1unicode=156)),
+        gens=dict(quick=g('stream', v1good=300, v1struct=60, v1adj=96, v1max=75, v1words=170, v1unicode=156), thorough=g('stream', v1good=8000, v1struct=2000, v1adj=6144, v1max=700, v1words=170, v1unicode=156)),
         models=[MC_V1],
         rule='every accepted v1 header (bytes and text entry points); distinct = distinct inputs',
     ),
